@@ -12,6 +12,8 @@ Inductive err :=
 | IndexErr        (* IndexError *)
 | CFIStateErr     (* gtirb_rewriting.dwarf.cfi_eval.CFIStateError *)
 | NotImplementedErr
+| UsesRemainErr    (* gtirb_rewriting SymbolUsesRemainingError *)
+| AmbiguousErr     (* gtirb_rewriting AmbiguousIRError *)
 | OutOfFuel.      (* model artefact: never produced under the theorems' hypotheses *)
 
 Inductive result (A : Type) :=
